@@ -10,8 +10,8 @@
     the sign is '-' / '+' / ' ' / none, and (for %f, %e) the digits after the point plus the zero fill are `precision`
     (6 when none is given) with the point present iff that is positive or '#' is set.
 """
-from c06_sx import SX, P, Fv, St, vkey
-from c06_common import CaseCtx, enum_cases, norm_segments, show_segments, Flags, Infeasible, emitter_functions, where_fn
+from c06_sx import SX, P, Fv, vkey
+from c06_common import enum_cases, show_segments, Flags, emitter_functions
 from lin import Lin, Cons, cone, normalize
 from c06_sx import lin_syms
 from irlib import AnalysisBroken, V
